@@ -433,9 +433,9 @@ def stage_run(prop, tier, seed, st, res):
     for k, (mode, profile, cases, extra) in enumerate(plan):
         cases = cases * factor
         tag = "r%d" % k
-        if mode == "sweep":
+        if mode in ("sweep", "vsweep"):
             out = os.path.join(wdir, tag + ".out")
-            cmds = [("%s sweep | %s /dev/stdin > %s" % (HARNESS, DRIVER, out), out)]
+            cmds = [("%s %s | %s /dev/stdin > %s" % (HARNESS, mode, DRIVER, out), out)]
         else:
             args = [mode, "--profile", profile] + list(extra)
             cmds = shard_cmds(args, seed, cases, wdir, tag)
@@ -446,7 +446,7 @@ def stage_run(prop, tier, seed, st, res):
             for l in (err or "").splitlines():
                 if l.startswith("harness:"):
                     dist.setdefault("%s/%s" % (mode, profile), []).append(l[9:])
-            parse_driver_output(out, profile if mode != "sweep" else "sweep", seed, res)
+            parse_driver_output(out, profile if mode not in ("sweep", "vsweep") else mode, seed, res)
             try:
                 os.remove(out)
             except OSError:
